@@ -260,8 +260,22 @@ func ruleEF2() Rule {
 					}
 				}
 			}
-			// EF3
-			if f := c.mustFn(rr, "parser.ParseCommands"); f != nil {
+			// EF3: the entry points are the functions that start a lexer and return
+			// (commands, comments, error); a wrapper that returns another entry point's
+			// results unchanged needs no check of its own
+			var entries []*core.Func
+			seenEntry := map[*core.Func]bool{}
+			for _, sp := range c.spawns("parser") {
+				g := sp.In.Root()
+				if !seenEntry[g] && g.Type.Results != nil && g.Type.Results.NumFields() == 3 {
+					seenEntry[g] = true
+					entries = append(entries, g)
+				}
+			}
+			if len(entries) == 0 {
+				rr.Unkp(c.P, "parser|entry points", 0, "no function that starts a lexer and returns (commands, comments, error) found")
+			}
+			for _, f := range entries {
 				info := f.Info()
 				n := 0
 				// locals that hold a copy of the slot
@@ -378,32 +392,33 @@ func ruleEF6() Rule {
 			}
 			if f := c.mustFn(rr, "parser.(*lexer).Lex"); f != nil {
 				info := f.Info()
-				f.OwnNodes(func(n ast.Node) bool {
-					ts, ok := n.(*ast.TypeSwitchStmt)
-					if !ok {
+				// every return that delivers a token (anything but the constant 0, end of
+				// input) is preceded on all paths by the store of that token's position
+				stored := core.NewFlow(f).MustSeen(false, func(x ast.Node) bool {
+					call, ok := x.(*ast.CallExpr)
+					return ok && calleeName(info, call) == "sync/atomic.(*Value).Store"
+				}, nil)
+				n := 0
+				f.OwnNodes(func(x ast.Node) bool {
+					r, ok := x.(*ast.ReturnStmt)
+					if !ok || len(r.Results) != 1 {
 						return true
 					}
-					for _, cl := range ts.Body.List {
-						cc := cl.(*ast.CaseClause)
-						if cc.List == nil {
-							continue
-						}
-						stores := false
-						ast.Inspect(cc, func(x ast.Node) bool {
-							if call, ok := x.(*ast.CallExpr); ok && calleeName(info, call) == "sync/atomic.(*Value).Store" {
-								stores = true
-							}
-							return true
-						})
-						key := f.Name + "|case " + exprStr(cc.List[0])
-						if stores {
-							rr.OK(f, key, cc.Pos(), "records", "records the delivered token's position for Error()")
-						} else {
-							rr.Bad(f, key, cc.Pos(), "this token path does not record the token's position: a syntax error at it is reported at the previous token")
-						}
+					if k, isConst := constInt(info, r.Results[0]); isConst && k == 0 {
+						return true
+					}
+					n++
+					key := fmt.Sprintf("%s|token return #%d", f.Name, n)
+					if stored[r] {
+						rr.OK(f, key, r.Pos(), "records", "records the delivered token's position for Error()")
+					} else {
+						rr.Bad(f, key, r.Pos(), "this token path does not record the token's position: a syntax error at it is reported at the previous token")
 					}
 					return true
 				})
+				if n == 0 {
+					rr.Unk(f, f.Name+"|token returns", f.Pos(), "Lex has no return that delivers a token")
+				}
 			}
 		}}
 }
